@@ -158,8 +158,9 @@ def mintVB (sender rcpt : Addr) (c : ClassId) (t : TokenId) (uri : String) (data
   validAddr sender && validAddr rcpt && !isIBCDenom c && validDenomId c && validUri uri && dataOk && validTokenId t
 def editVB (sender : Addr) (c : ClassId) (t : TokenId) (uri : String) (dataOk : Bool) : Bool :=
   validAddr sender && validDenomId c && validUri uri && dataOk && validTokenId t
-/-- `MsgTransferNFT.ValidateBasic` has no URI length rule -/
-def transferVB (sender rcpt : Addr) (c : ClassId) (t : TokenId) (dataOk : Bool) : Bool :=
+/-- `MsgTransferNFT.ValidateBasic` has no URI length rule: `_uri` is not looked at, so a transfer
+with changes can store a URI that `MsgMintNFT` / `MsgEditNFT` (and `ValidateGenesis`) refuse -/
+def transferVB (sender rcpt : Addr) (c : ClassId) (t : TokenId) (_uri : String) (dataOk : Bool) : Bool :=
   validDenomId c && validAddr sender && validAddr rcpt && dataOk && validTokenId t
 def burnVB (sender : Addr) (c : ClassId) (t : TokenId) : Bool :=
   validAddr sender && validDenomId c && validTokenId t
@@ -280,7 +281,7 @@ def stepEdit (s : State) (sender : Addr) (c : ClassId) (t : TokenId)
 /-- `TransferNFT` → `TransferOwnership` -/
 def stepTransfer (s : State) (sender rcpt : Addr) (c : ClassId) (t : TokenId)
     (name uri uriHash data : String) (dataOk : Bool) : R :=
-  if !transferVB sender rcpt c t dataOk then .error (.reject "validate-basic") else
+  if !transferVB sender rcpt c t uri dataOk then .error (.reject "validate-basic") else
   match tokenOf s c t with
   | none => .error (.reject "nft not exists")
   | some r =>
